@@ -180,6 +180,8 @@ def gen_movie(rng, thorough=False, plant_history=False, dense=False):
     inp = dict(dim=dim, frames=frames, t0=rng.choice([0, 0, 1, 5, 17, -3, -8]), sr=sr, iso=iso,
                scale_pow=scale_pow, default_cols=(rng.random() < 0.3),
                memory=memory, strategy="recursive", entry="link_iter", missing=[])
+    if rng.random() < 0.3:
+        inp["cols_perm"] = True
     if fine:
         inp["fine"] = fine
     return inp
@@ -264,10 +266,18 @@ def run_impl(inp, extra_kwargs=None, predictor=None):
                 df["frame"] = t0 + k * ts
                 given.append((df, df.copy(deep=True)))
                 yield df
+        # the same request with the position columns named in another order (and the per-axis range
+        # permuted with them): which column is listed first must not matter
+        pcols, psr = cols, sr
+        if inp.get("cols_perm") and dim >= 2:
+            perm = list(range(dim))[::-1] if dim == 2 else [1, 2, 0]
+            pcols = [cols[i] for i in perm]
+            if isinstance(sr, tuple):
+                psr = tuple(sr[i] for i in perm)
         if inp.get("null_predict"):
-            gen = tp.predict.NullPredict().link_df_iter(dfs(), sr, pos_columns=cols, **kw)
+            gen = tp.predict.NullPredict().link_df_iter(dfs(), psr, pos_columns=pcols, **kw)
         else:
-            gen = tp.link_df_iter(dfs(), sr, pos_columns=cols, **kw)
+            gen = tp.link_df_iter(dfs(), psr, pos_columns=pcols, **kw)
         k = 0
         while True:
             try:
